@@ -47,5 +47,11 @@ C15Fails(c) ==
       THEN C15TableFails("evaluate_full_circuit(reused-dict)", c.res.full_r, labels, labels, tt, n) \cup
            C15TableFails("evaluate_circuit(reused-dict)", c.res.circ_r, labels, Reach(ck, SeqSet(ck.o)), tt, n) \cup
            C15TableFails("evaluate_circuit_outputs(reused-dict)", c.res.outs_r, SeqSet(ck.o), SeqSet(ck.o), tt, n)
+      ELSE {}) \cup
+     \* ... and with ONE dictionary handed to all three entry points in turn
+     (IF "full_x" \in DOMAIN c.res
+      THEN C15TableFails("evaluate_full_circuit(dict-shared-by-entry-points)", c.res.full_x, labels, labels, tt, n) \cup
+           C15TableFails("evaluate_circuit(dict-shared-by-entry-points)", c.res.circ_x, labels, Reach(ck, SeqSet(ck.o)), tt, n) \cup
+           C15TableFails("evaluate_circuit_outputs(dict-shared-by-entry-points)", c.res.outs_x, SeqSet(ck.o), SeqSet(ck.o), tt, n)
       ELSE {})
 =============================================================================
